@@ -91,10 +91,11 @@ def shapes(n, with_generate):
         yield docs
 
 
-def random_set(rng, n):
-    """random layered rule set: plain rules, correlation rules on earlier rules (chains), unrelated rules"""
+def random_set(rng, n, maxdepth=None):
+    """random layered rule set: plain rules, correlation rules on earlier rules (chains), unrelated rules.
+    maxdepth bounds the length of reference chains (query text grows multiplicatively along a chain)."""
     docs = []
-    keys = []     # (title, [reference strings])
+    keys = []     # (title, [reference strings], depth)
     nplain = rng.randint(1, max(1, min(4, n - 1)))
     for i in range(n):
         t = TITLES[i] if i < 26 else TITLES[i // 26 - 1] + TITLES[i % 26]
@@ -102,24 +103,28 @@ def random_set(rng, n):
         name = t if rng.random() < 0.7 else None
         ident = U(100 + i) if (name is None and rng.random() < 0.8) or rng.random() < 0.3 else None
         refs_to_me = ([name] if name else []) + ([ident, ident.upper(), ident.replace("-", "")] if ident else [])
-        if i < nplain or kind < 0.35 or not keys:
+        usable = [k for k in keys if maxdepth is None or k[2] < maxdepth]
+        depth = 0
+        if i < nplain or kind < 0.35 or not usable:
             docs.append({"t": t, "n": name, "i": ident, "k": "p", "v": [t] if rng.random() < 0.8 else [t + "x", t + "y"]})
         else:
-            k = rng.randint(1, min(3, len(keys)))
+            k = rng.randint(1, min(3, len(usable)))
             # prefer recent rules: chains
-            pool = keys[-4:] if rng.random() < 0.6 else keys
-            refs = [rng.choice(rng.choice(pool)[1]) for _ in range(k)]
+            pool = usable[-4:] if rng.random() < 0.6 else usable
+            picked = [rng.choice(pool) for _ in range(k)]
+            refs = [rng.choice(x[1]) for x in picked]
+            depth = 1 + max(x[2] for x in picked)
             docs.append({"t": t, "n": name, "i": ident, "k": "c", "refs": refs, "g": rng.choice([None, None, True, False]),
                          "ty": rng.choice(["temporal", "event_count"]), "gb": "user", "ts": f"{i + 1}h", "cnt": rng.randint(1, 12)})
         if refs_to_me:
-            keys.append((t, refs_to_me))
+            keys.append((t, refs_to_me, depth))
     rng.shuffle(docs)
     # hostile variations
     x = rng.random()
     cs = [d for d in docs if d["k"] == "c"]
     if cs and x < 0.06:
         rng.choice(cs)["refs"].append("nosuchrule")
-    elif cs and x < 0.10:
+    elif cs and x < 0.10 and maxdepth is None:
         c = rng.choice(cs)
         if c["n"]:
             rng.choice(cs)["refs"].append(c["n"])       # may create a cycle / self reference
@@ -202,12 +207,21 @@ def gen_orders(tier, rng):
     # beyond 6 documents: sampled orders (70 documents: more than one run for a merge sort)
     for _ in range(12 if quick else 120):
         n = rng.choice([7, 8, 9, 10, 12, 16])
-        add(random_set(rng, n), sample_perms(rng, n, 12 if quick else 36), [rng.choice(PATHS)])
-    for _ in range(1 if quick else 6):
-        add(random_set(rng, 70), sample_perms(rng, 70, 4), [rng.choice(PATHS)])
+        add(random_set(rng, n, maxdepth=5), sample_perms(rng, n, 12 if quick else 36), [rng.choice(PATHS)])
     # deep chain (depth 8) with unrelated rules
     chain = [P("a")] + [C(TITLES[i], [TITLES[i - 1]], ty="event_count") for i in range(1, 9)] + [P("u"), P("v")]
     add(chain, sample_perms(rng, len(chain), 24 if quick else 200), [rng.choice(PATHS)])
+    return cases
+
+
+def gen_orders_big(tier, rng):
+    """70 documents (more than one run for a merge sort; long reference chains): a few sampled orders.
+    Own suite because the Coq terms are large (small shards)."""
+    cases = []
+    for _ in range(1 if tier == "quick" else 6):
+        docs = random_set(rng, 70, maxdepth=3)
+        for part in chunks(sample_perms(rng, 70, 4)):
+            cases.append({"docs": docs, "perms": part, "path": rng.choice(PATHS)})
     return cases
 
 
@@ -333,7 +347,9 @@ PROPERTY = Property(
     pid="C09", props_file="Props/C09.v",
     suites=[
         Suite("orders", gen_orders, "run_orders", REQ, "judge_orders", orders_to_coq, known=known_orders,
-              mutate=mutate_orders, stratum=stratum_orders, shard=160),
+              mutate=mutate_orders, stratum=stratum_orders, shard=80),
+        Suite("orders_big", gen_orders_big, "run_orders", REQ, "judge_orders", orders_to_coq, known=known_orders,
+              stratum=stratum_orders, shard=1),
         Suite("oldsort", gen_oldsort, "run_oldsort", REQ, "judge_oldsort", oldsort_to_coq, shard=400),
     ],
     rule="rule sets (1-4 plain rules, correlation rules referring by name or id (ids spelled canonically, upper case, "
